@@ -12,6 +12,7 @@ import (
 	"github.com/buildbarn/bb-remote-execution/pkg/verifsim/simsync"
 	"github.com/buildbarn/bb-storage/pkg/filesystem"
 	"github.com/buildbarn/bb-storage/pkg/filesystem/path"
+	"github.com/hanwen/go-fuse/v2/fuse"
 )
 
 // C13: one sequential driver issues operations; each one is executed on the
@@ -27,6 +28,9 @@ func runC13(r *simrun.Run) {
 	for i, root := range e.roots {
 		w.newDir(i, nil, root)
 	}
+	if e.cfg.fuseFront {
+		w.setupFUSE()
+	}
 	nOps := 20 + e.t.Choice(61)
 	if r.Tier == "thorough" {
 		nOps *= 2
@@ -36,6 +40,10 @@ func runC13(r *simrun.Run) {
 	r.Count("c13_operations", w.ops)
 	r.Count("c13_successful_mutations", w.mutations)
 	r.Count("c13_error_returns", w.errors)
+	if w.f != nil {
+		r.Count("c13_fuse_requests", w.f.requests)
+		r.Count("c13_fuse_entry_notifications", w.f.entryNotifies)
+	}
 	r.State(fmt.Sprintf("dirs=%d/leaves=%d/sessions=%d", len(w.dirs), len(w.leaves), len(w.sessions)))
 	if e.k.Failed() {
 		return
@@ -63,6 +71,11 @@ func (w *c13) drive(n int) {
 	w.k.Yield("final")
 	w.desc = "final tree comparison"
 	w.compareAll()
+	if w.f != nil {
+		w.desc = "FORGET of every lookup the kernel holds"
+		w.forgetAll()
+		w.k.Probe("c13_fuse_run_completed")
+	}
 }
 
 func (w *c13) logOp(format string, args ...interface{}) {
@@ -188,6 +201,8 @@ func (w *c13) forget() {
 			}
 			if !drop {
 				kept = append(kept, d)
+			} else if d.fuseID != 0 {
+				w.f.rfs.Forget(d.fuseID, d.nlookup)
 			}
 		}
 		w.dirs = kept
@@ -203,6 +218,8 @@ func (w *c13) forget() {
 			}
 			if !drop {
 				kept = append(kept, n)
+			} else if n.fuseID != 0 {
+				w.f.rfs.Forget(n.fuseID, n.nlookup)
 			}
 		}
 		w.leaves = kept
@@ -222,6 +239,18 @@ func (w *c13) pickDir() *mNode {
 	}
 	if len(live) == 0 || (len(dead) > 0 && w.t.Bool(1, 5)) {
 		return pick(w.t, dead)
+	}
+	if w.f != nil && w.t.Bool(2, 3) {
+		// Prefer the hierarchy the front end is mounted on.
+		var mounted []*mNode
+		for _, d := range live {
+			if d.fs == 0 {
+				mounted = append(mounted, d)
+			}
+		}
+		if len(mounted) > 0 {
+			return pick(w.t, mounted)
+		}
 	}
 	return pick(w.t, live)
 }
@@ -266,7 +295,12 @@ func (w *c13) step() {
 		w.e.armed = pick(t, []faultKind{faultFetch, faultAlloc, faultSymlink, faultTruncate, faultFetch})
 	}
 	w.ops++
-	kind := t.Weighted([]int{10, 10, 8, 6, 6, 14, 10, 12, 2, 4, 3, 2, 2, 2, 3, 3, 2, 6, 4, 2})
+	weights := []int{10, 10, 8, 6, 6, 14, 10, 12, 2, 4, 3, 2, 2, 2, 3, 3, 2, 6, 4, 2, 0}
+	if w.f != nil {
+		weights[20] = 3
+		weights[7] = 18
+	}
+	kind := t.Weighted(weights)
 	var d *mNode
 	switch {
 	case w.e.armed == faultFetch:
@@ -317,6 +351,8 @@ func (w *c13) step() {
 		w.opCreateAndEnter(d, w.pickName(d, t.Bool(1, 2)))
 	case 19:
 		w.opFilter(d)
+	case 20:
+		w.opForget()
 	}
 	w.endOp()
 }
@@ -393,19 +429,27 @@ func (w *c13) maskChoice() virtual.AttributesMask {
 
 // --- kernel-facing operations ----------------------------------------------
 
+func (w *c13) modelLookup(d *mNode, name string) (virtual.Status, *mEntry) {
+	if !w.need(d) {
+		return virtual.StatusErrIO, nil
+	}
+	if en := w.find(d, name); en != nil {
+		return virtual.StatusOK, en
+	}
+	return virtual.StatusErrNoEnt, nil
+}
+
 func (w *c13) opLookup(d *mNode, name string) {
 	mask := w.maskChoice()
+	if fd := w.fuseDir(d); fd != 0 {
+		w.fuseLookup(d, fd, name)
+		return
+	}
 	w.logOp("VirtualLookup(%s, %q, changeID=%v)", d, name, mask&virtual.AttributesMaskChangeID != 0)
 	var out virtual.Attributes
 	child, st := d.dir.VirtualLookup(ctx, comp(name), mask, &out)
 	w.adopt()
-	want := virtual.StatusOK
-	var en *mEntry
-	if !w.need(d) {
-		want = virtual.StatusErrIO
-	} else if en = w.find(d, name); en == nil {
-		want = virtual.StatusErrNoEnt
-	}
+	want, en := w.modelLookup(d, name)
 	w.expectStatus("VirtualLookup", st, want)
 	if st == virtual.StatusOK {
 		w.checkChild(child, en.node)
@@ -413,35 +457,9 @@ func (w *c13) opLookup(d *mNode, name string) {
 	}
 }
 
-func (w *c13) opOpen(d *mNode, name string) {
-	t := w.t
-	share := pick(t, []virtual.ShareMask{virtual.ShareMaskRead, virtual.ShareMaskWrite, virtual.ShareMaskRead | virtual.ShareMaskWrite})
-	var create *virtual.Attributes
-	var existing *virtual.OpenExistingOptions
-	exec, size, perms := false, -1, false
-	mode := t.Choice(4)
-	if mode != 2 && (mode != 3 || t.Bool(1, 2)) {
-		create = &virtual.Attributes{}
-		if perms = t.Bool(2, 3); perms {
-			exec = t.Bool(1, 3)
-			p := virtual.PermissionsRead | virtual.PermissionsWrite
-			if exec {
-				p |= virtual.PermissionsExecute
-			}
-			create.SetPermissions(p)
-		}
-		if size = pick(t, []int{-1, 0, 5}); size >= 0 {
-			create.SetSizeBytes(uint64(size))
-		}
-	}
-	if mode != 1 {
-		existing = &virtual.OpenExistingOptions{Truncate: mode == 3}
-	}
-	w.logOp("VirtualOpenChild(%s, %q, create=%v(exec=%v size=%d) existing=%v truncate=%v)", d, name, create != nil, exec, size, existing != nil, mode == 3)
-	var out virtual.Attributes
-	leaf, respected, ci, st := d.dir.VirtualOpenChild(ctx, comp(name), share, create, existing, baseMask, &out)
-	w.adopt()
-
+// modelOpen is open(2) with O_CREAT (create), without O_EXCL (existing != nil)
+// and O_TRUNC.
+func (w *c13) modelOpen(d *mNode, name string, create bool, existing *virtual.OpenExistingOptions, exec bool, size int, perms bool) (virtual.Status, virtual.AttributesMask, *mNode, bool) {
 	want := virtual.StatusOK
 	var wantRespected virtual.AttributesMask
 	var node *mNode
@@ -468,7 +486,7 @@ func (w *c13) opOpen(d *mNode, name string) {
 		}
 	} else {
 		switch {
-		case d.deleted || create == nil:
+		case d.deleted || !create:
 			want = virtual.StatusErrNoEnt
 		case w.e.armed == faultAlloc:
 			want = virtual.StatusErrIO
@@ -488,6 +506,43 @@ func (w *c13) opOpen(d *mNode, name string) {
 			}
 		}
 	}
+	return want, wantRespected, node, created
+}
+
+func (w *c13) opOpen(d *mNode, name string) {
+	t := w.t
+	share := pick(t, []virtual.ShareMask{virtual.ShareMaskRead, virtual.ShareMaskWrite, virtual.ShareMaskRead | virtual.ShareMaskWrite})
+	var create *virtual.Attributes
+	var existing *virtual.OpenExistingOptions
+	exec, size, perms := false, -1, false
+	mode := t.Choice(4)
+	if mode != 2 && (mode != 3 || t.Bool(1, 2)) {
+		create = &virtual.Attributes{}
+		if perms = t.Bool(2, 3); perms {
+			exec = t.Bool(1, 3)
+			p := virtual.PermissionsRead | virtual.PermissionsWrite
+			if exec {
+				p |= virtual.PermissionsExecute
+			}
+			create.SetPermissions(p)
+		}
+		if size = pick(t, []int{-1, 0, 5}); size >= 0 {
+			create.SetSizeBytes(uint64(size))
+		}
+	}
+	if mode != 1 {
+		existing = &virtual.OpenExistingOptions{Truncate: mode == 3}
+	}
+	if fd := w.fuseDir(d); fd != 0 {
+		w.fuseOpen(d, fd, name, share, create != nil, existing, perms && exec)
+		return
+	}
+	w.logOp("VirtualOpenChild(%s, %q, create=%v(exec=%v size=%d) existing=%v truncate=%v)", d, name, create != nil, exec, size, existing != nil, mode == 3)
+	var out virtual.Attributes
+	leaf, respected, ci, st := d.dir.VirtualOpenChild(ctx, comp(name), share, create, existing, baseMask, &out)
+	w.adopt()
+
+	want, wantRespected, node, created := w.modelOpen(d, name, create != nil, existing, exec, size, perms)
 	w.expectStatus("VirtualOpenChild", st, want)
 	if st != virtual.StatusOK {
 		return
@@ -509,29 +564,33 @@ func (w *c13) opOpen(d *mNode, name string) {
 	leaf.VirtualClose(share)
 }
 
+func (w *c13) modelMkdir(d *mNode, name string) (virtual.Status, *mNode) {
+	switch {
+	case !w.need(d):
+		return virtual.StatusErrIO, nil
+	case d.deleted:
+		w.k.Probe("c13_create_in_removed_directory_refused")
+		return virtual.StatusErrNoEnt, nil
+	case w.find(d, name) != nil:
+		return virtual.StatusErrExist, nil
+	}
+	node := w.newDir(d.fs, nil, nil)
+	w.attach(d, name, node)
+	return virtual.StatusOK, node
+}
+
 func (w *c13) opMkdir(d *mNode, name string) {
+	if fd := w.fuseDir(d); fd != 0 {
+		w.fuseMkdir(d, fd, name)
+		return
+	}
 	w.logOp("VirtualMkdir(%s, %q)", d, name)
 	var out virtual.Attributes
 	dir, ci, st := d.dir.VirtualMkdir(ctx, comp(name), &virtual.Attributes{}, baseMask|virtual.AttributesMaskChangeID, &out)
 	w.adopt()
-	want := virtual.StatusOK
-	var node *mNode
-	switch {
-	case !w.need(d):
-		want = virtual.StatusErrIO
-	case d.deleted:
-		want = virtual.StatusErrNoEnt
-	case w.find(d, name) != nil:
-		want = virtual.StatusErrExist
-	default:
-		node = w.newDir(d.fs, nil, nil)
-		w.attach(d, name, node)
-	}
+	want, node := w.modelMkdir(d, name)
 	w.expectStatus("VirtualMkdir", st, want)
 	if st != virtual.StatusOK {
-		if d.deleted {
-			w.k.Probe("c13_create_in_removed_directory_refused")
-		}
 		return
 	}
 	pd, ok := dir.(virtual.PrepopulatedDirectory)
@@ -543,18 +602,7 @@ func (w *c13) opMkdir(d *mNode, name string) {
 	w.ci = append(w.ci, ciCheck{"the", d, ci})
 }
 
-func (w *c13) opMknod(d *mNode, name string) {
-	ft := pick(w.t, []filesystem.FileType{filesystem.FileTypeSymlink, filesystem.FileTypeFIFO, filesystem.FileTypeSymlink, filesystem.FileTypeSocket, filesystem.FileTypeBlockDevice, filesystem.FileTypeCharacterDevice})
-	attrs := (&virtual.Attributes{}).SetFileType(ft)
-	target := ""
-	if ft == filesystem.FileTypeSymlink {
-		target = w.e.newTarget()
-		attrs.SetSymlinkTarget(path.UNIXFormat.NewParser(target))
-	}
-	w.logOp("VirtualMknod(%s, %q, %s %s)", d, name, fileTypeNames[ft], target)
-	var out virtual.Attributes
-	leaf, ci, st := d.dir.VirtualMknod(ctx, comp(name), attrs, baseMask, &out)
-	w.adopt()
+func (w *c13) modelMknod(d *mNode, name string, ft filesystem.FileType, target string) (virtual.Status, *mNode) {
 	want := virtual.StatusOK
 	var node *mNode
 	switch {
@@ -581,6 +629,26 @@ func (w *c13) opMknod(d *mNode, name string) {
 	if node != nil {
 		w.attach(d, name, node)
 	}
+	return want, node
+}
+
+func (w *c13) opMknod(d *mNode, name string) {
+	ft := pick(w.t, []filesystem.FileType{filesystem.FileTypeSymlink, filesystem.FileTypeFIFO, filesystem.FileTypeSymlink, filesystem.FileTypeSocket, filesystem.FileTypeBlockDevice, filesystem.FileTypeCharacterDevice})
+	attrs := (&virtual.Attributes{}).SetFileType(ft)
+	target := ""
+	if ft == filesystem.FileTypeSymlink {
+		target = w.e.newTarget()
+		attrs.SetSymlinkTarget(path.UNIXFormat.NewParser(target))
+	}
+	if fd := w.fuseDir(d); fd != 0 {
+		w.fuseMknod(d, fd, name, ft, target)
+		return
+	}
+	w.logOp("VirtualMknod(%s, %q, %s %s)", d, name, fileTypeNames[ft], target)
+	var out virtual.Attributes
+	leaf, ci, st := d.dir.VirtualMknod(ctx, comp(name), attrs, baseMask, &out)
+	w.adopt()
+	want, node := w.modelMknod(d, name, ft, target)
 	w.expectStatus("VirtualMknod", st, want)
 	if st != virtual.StatusOK {
 		return
@@ -596,6 +664,26 @@ func (w *c13) opMknod(d *mNode, name string) {
 
 // plainLeaf is a leaf of a kind that cannot be linked into the tree.
 type plainLeaf struct{ virtual.Leaf }
+
+func (w *c13) modelLink(d *mNode, name string, n *mNode) virtual.Status {
+	switch {
+	case !w.need(d):
+		return virtual.StatusErrIO
+	case d.deleted:
+		return virtual.StatusErrNoEnt
+	case w.find(d, name) != nil:
+		return virtual.StatusErrExist
+	case n.nlink == 0:
+		w.k.Probe("c13_link_of_removed_file_refused")
+		return virtual.StatusErrStale
+	}
+	n.nlink++
+	w.attach(d, name, n)
+	if n.nlink > 1 {
+		w.k.Probe("c13_hard_link_created")
+	}
+	return virtual.StatusOK
+}
 
 func (w *c13) opLink(d *mNode, name string) {
 	var cands []*mNode
@@ -615,28 +703,15 @@ func (w *c13) opLink(d *mNode, name string) {
 		return
 	}
 	n := pick(w.t, cands)
+	if fd := w.fuseDir(d); fd != 0 && n.fuseID != 0 {
+		w.fuseLink(d, fd, name, n)
+		return
+	}
 	w.logOp("VirtualLink(%s, %q, %s)", d, name, n)
 	var out virtual.Attributes
 	ci, st := d.dir.VirtualLink(ctx, comp(name), n.leaf, baseMask, &out)
 	w.adopt()
-	want := virtual.StatusOK
-	switch {
-	case !w.need(d):
-		want = virtual.StatusErrIO
-	case d.deleted:
-		want = virtual.StatusErrNoEnt
-	case w.find(d, name) != nil:
-		want = virtual.StatusErrExist
-	case n.nlink == 0:
-		want = virtual.StatusErrStale
-		w.k.Probe("c13_link_of_removed_file_refused")
-	default:
-		n.nlink++
-		w.attach(d, name, n)
-		if n.nlink > 1 {
-			w.k.Probe("c13_hard_link_created")
-		}
-	}
+	want := w.modelLink(d, name, n)
 	w.expectStatus("VirtualLink", st, want)
 	if st == virtual.StatusOK {
 		w.checkAttrs(&out, n, baseMask)
@@ -644,28 +719,7 @@ func (w *c13) opLink(d *mNode, name string) {
 	}
 }
 
-func (w *c13) opRename(dOld *mNode) {
-	t := w.t
-	oldName := w.pickName(dOld, true)
-	dNew := dOld
-	if t.Bool(1, 2) {
-		dNew = w.pickDir()
-	}
-	newName := w.pickName(dNew, t.Bool(1, 2))
-	// POSIX forbids moving a directory into itself; the code under test
-	// documents that it does not check this (TODO in VirtualRename), so
-	// such requests are not issued.
-	if dOld.lazy == nil {
-		if en := w.find(dOld, oldName); en != nil && en.node.kind == kDir && w.isBelow(dNew, en.node) {
-			w.k.Probe("c13_rename_into_own_subtree_not_issued")
-			w.opLookup(dOld, oldName)
-			return
-		}
-	}
-	w.logOp("VirtualRename(%s, %q -> %s, %q)", dOld, oldName, dNew, newName)
-	ciOld, ciNew, st := dOld.dir.VirtualRename(ctx, comp(oldName), dNew.dir, comp(newName))
-	w.adopt()
-
+func (w *c13) modelRename(dOld *mNode, oldName string, dNew *mNode, newName string) virtual.Status {
 	want := virtual.StatusOK
 	kase := ""
 	if !w.need(dOld) || !w.need(dNew) {
@@ -733,17 +787,43 @@ func (w *c13) opRename(dOld *mNode) {
 		}
 	}
 	w.k.Probe("c13_rename:" + kase)
+	return want
+}
+
+func (w *c13) opRename(dOld *mNode) {
+	t := w.t
+	oldName := w.pickName(dOld, true)
+	dNew := dOld
+	if t.Bool(1, 2) {
+		dNew = w.pickDir()
+	}
+	newName := w.pickName(dNew, t.Bool(1, 2))
+	// POSIX forbids moving a directory into itself; the code under test
+	// documents that it does not check this (TODO in VirtualRename), so
+	// such requests are not issued.
+	if dOld.lazy == nil {
+		if en := w.find(dOld, oldName); en != nil && en.node.kind == kDir && w.isBelow(dNew, en.node) {
+			w.k.Probe("c13_rename_into_own_subtree_not_issued")
+			w.opLookup(dOld, oldName)
+			return
+		}
+	}
+	if fo, fn := w.fuseDir(dOld), w.fuseDir(dNew); fo != 0 && fn != 0 {
+		w.fuseRename(dOld, fo, oldName, dNew, fn, newName)
+		return
+	}
+	w.logOp("VirtualRename(%s, %q -> %s, %q)", dOld, oldName, dNew, newName)
+	ciOld, ciNew, st := dOld.dir.VirtualRename(ctx, comp(oldName), dNew.dir, comp(newName))
+	w.adopt()
+
+	want := w.modelRename(dOld, oldName, dNew, newName)
 	w.expectStatus("VirtualRename", st, want)
 	if st == virtual.StatusOK {
 		w.ci = append(w.ci, ciCheck{"the source", dOld, ciOld}, ciCheck{"the target", dNew, ciNew})
 	}
 }
 
-func (w *c13) opVRemove(d *mNode, name string) {
-	flags := pick(w.t, [][2]bool{{true, true}, {true, false}, {false, true}, {true, true}})
-	w.logOp("VirtualRemove(%s, %q, removeDirectory=%v removeLeaf=%v)", d, name, flags[0], flags[1])
-	ci, st := d.dir.VirtualRemove(ctx, comp(name), flags[0], flags[1])
-	w.adopt()
+func (w *c13) modelVRemove(d *mNode, name string, flags [2]bool) virtual.Status {
 	want := virtual.StatusOK
 	if !w.need(d) {
 		want = virtual.StatusErrIO
@@ -770,6 +850,19 @@ func (w *c13) opVRemove(d *mNode, name string) {
 		w.unlink(en.node)
 		w.detach(d, en)
 	}
+	return want
+}
+
+func (w *c13) opVRemove(d *mNode, name string) {
+	flags := pick(w.t, [][2]bool{{true, true}, {true, false}, {false, true}, {true, true}})
+	if fd := w.fuseDir(d); fd != 0 && flags[0] != flags[1] {
+		w.fuseRemove(d, fd, name, flags)
+		return
+	}
+	w.logOp("VirtualRemove(%s, %q, removeDirectory=%v removeLeaf=%v)", d, name, flags[0], flags[1])
+	ci, st := d.dir.VirtualRemove(ctx, comp(name), flags[0], flags[1])
+	w.adopt()
+	want := w.modelVRemove(d, name, flags)
 	w.expectStatus("VirtualRemove", st, want)
 	if st == virtual.StatusOK {
 		w.ci = append(w.ci, ciCheck{"the", d, ci})
@@ -777,6 +870,10 @@ func (w *c13) opVRemove(d *mNode, name string) {
 }
 
 func (w *c13) opGetAttributes(d *mNode) {
+	if fd := w.fuseDir(d); fd != 0 {
+		w.fuseGetAttr(d, fd)
+		return
+	}
 	w.logOp("VirtualGetAttributes(%s)", d)
 	var out virtual.Attributes
 	d.dir.VirtualGetAttributes(ctx, baseMask|virtual.AttributesMaskChangeID, &out)
@@ -793,6 +890,9 @@ type reported struct {
 	child  virtual.DirectoryChild
 	ft     filesystem.FileType
 	change uint64
+	// FUSE pages only.
+	ino   uint64
+	entry *fuse.EntryOut
 }
 
 type pageReporter struct {
@@ -846,18 +946,45 @@ func (w *c13) opReadDir() {
 		w.sessSeq++
 		s = &session{id: w.sessSeq, d: w.pickDirWhere(func(d *mNode) bool { return len(d.entries) >= 2 }), page: 1 + t.Choice(3), mask: w.maskChoice(), alive: map[int]string{}}
 		s.recs = []cookieRec{{}}
+		if w.fuseDir(s.d) != 0 {
+			s.fuse, s.plus = true, t.Bool(1, 2)
+			s.page = pick(t, []int{1, 2, 3, 1, 2, 40})
+		}
 	}
 	rec := s.recs[recIdx]
 	d := s.d
-	w.logOp("VirtualReadDir(%s, cookie=%d, page of %d, changeID=%v) [listing %d, %d pages so far]", d, rec.cookie, s.page, s.mask&virtual.AttributesMaskChangeID != 0, s.id, s.pages)
 	rep := &pageReporter{max: s.page, mask: s.mask}
-	st := d.dir.VirtualReadDir(ctx, rec.cookie, s.mask, rep)
-	w.adopt()
-	if !w.need(d) {
-		w.expectStatus("VirtualReadDir", st, virtual.StatusErrIO)
-		return
+	if s.fuse {
+		w.logOp("FUSE ReadDir(%s, offset=%d, buffer for %d entries, plus=%v) [listing %d, %d pages so far]", d, rec.cookie, s.page, s.plus, s.id, s.pages)
+		list, st := w.fusePage(s, rec.cookie)
+		w.adopt()
+		// A reply buffer that "." and ".." fill up can be produced
+		// without looking at the directory.
+		pseudo := 0
+		if rec.cookie < 2 {
+			pseudo = 2 - int(rec.cookie)
+		}
+		if d.lazy != nil && pseudo >= s.page && st == fuse.OK {
+			w.k.Probe("c13_fuse_page_of_dot_entries_only")
+		} else if !w.need(d) {
+			w.expectErrno("ReadDir", st, virtual.StatusErrIO)
+			return
+		}
+		w.expectErrno("ReadDir", st, virtual.StatusOK)
+		rep.got, rep.truncated = list.got, list.truncated
+		if isNew {
+			s.alive[eidDot], s.alive[eidDotDot] = ".", ".."
+		}
+	} else {
+		w.logOp("VirtualReadDir(%s, cookie=%d, page of %d, changeID=%v) [listing %d, %d pages so far]", d, rec.cookie, s.page, s.mask&virtual.AttributesMaskChangeID != 0, s.id, s.pages)
+		st := d.dir.VirtualReadDir(ctx, rec.cookie, s.mask, rep)
+		w.adopt()
+		if !w.need(d) {
+			w.expectStatus("VirtualReadDir", st, virtual.StatusErrIO)
+			return
+		}
+		w.expectStatus("VirtualReadDir", st, virtual.StatusOK)
 	}
-	w.expectStatus("VirtualReadDir", st, virtual.StatusOK)
 	if isNew {
 		for _, en := range d.entries {
 			if w.listed(en) {
@@ -867,16 +994,51 @@ func (w *c13) opReadDir() {
 		w.sessions = append(w.sessions, s)
 	}
 	seen := append([]int(nil), rec.seen...)
+	lastOffset := rec.cookie
 	for _, r := range rep.got {
+		if s.fuse {
+			// The kernel resumes a listing at the offset of the last
+			// entry it consumed, so offsets have to increase.
+			if r.cookie <= lastOffset {
+				w.fail("readdir-duplicate", "the listing of %s resumed at offset %d reports %q with offset %d after offset %d: offsets must increase", d, rec.cookie, r.name, r.cookie, lastOffset)
+			}
+			lastOffset = r.cookie
+			if r.name == "." || r.name == ".." {
+				eid := eidDot
+				if r.name == ".." {
+					eid = eidDotDot
+				}
+				if r.ft != filesystem.FileTypeDirectory {
+					w.fail("attributes", "the listing reports %q as %s", r.name, fileTypeNames[r.ft])
+				}
+				if containsInt(seen, eid) {
+					w.fail("readdir-duplicate", "the listing of %s resumed at offset %d reports %q although the pages leading to that offset had reported it already", d, rec.cookie, r.name)
+				}
+				seen = append(seen, eid)
+				s.recs = append(s.recs, cookieRec{cookie: r.cookie, seen: append([]int(nil), seen...)})
+				continue
+			}
+		}
 		en := w.find(d, r.name)
 		if en == nil || en.name != r.name || !w.listed(en) {
 			w.fail("readdir-phantom", "the listing reports %q, which does not exist (or is hidden) in %s", r.name, d)
 		}
-		w.checkChild(r.child, en.node)
+		if s.fuse {
+			if ino := w.inoOf(en.node); ino == 0 {
+				en.node.ino = r.ino // first sight; verified when the object gets bound
+			} else if r.ino != ino {
+				w.fail("wrong-object", "the listing reports %q with inode number %d, but the %s last put there has %d", r.name, r.ino, en.node, ino)
+			}
+			if r.entry != nil {
+				w.fuseEntry(r.entry, en.node, "the READDIRPLUS entry of "+r.name)
+			}
+		} else {
+			w.checkChild(r.child, en.node)
+		}
 		if r.ft != en.node.kind.fileType() {
 			w.fail("attributes", "the listing reports %q as %s, expected %s", r.name, fileTypeNames[r.ft], kindNames[en.node.kind])
 		}
-		if en.node.kind == kDir && s.mask&virtual.AttributesMaskChangeID != 0 && !en.node.fresh && !w.lazyBefore[en.node] && r.change != en.node.change {
+		if !s.fuse && en.node.kind == kDir && s.mask&virtual.AttributesMaskChangeID != 0 && !en.node.fresh && !w.lazyBefore[en.node] && r.change != en.node.change {
 			w.fail("change-counter", "the listing reports change counter %d for %s, but it is %d", r.change, en.node, en.node.change)
 		}
 		if containsInt(seen, en.eid) {
@@ -949,6 +1111,15 @@ func (w *c13) opWrite() {
 	if off > 40 || w.t.Bool(1, 3) {
 		off = 0
 	}
+	if n.fuseID != 0 && w.f != nil {
+		w.logOp("FUSE Open+Write+Release %q at offset %d of %s", token, off, n)
+		w.fuseWrite(n, token, off)
+		if end := off + len(token); end > len(n.data) {
+			n.data = append(n.data, make([]byte, end-len(n.data))...)
+		}
+		copy(n.data[off:], token)
+		return
+	}
 	w.logOp("write %q at offset %d of %s", token, off, n)
 	var out virtual.Attributes
 	if st := n.leaf.VirtualOpenSelf(ctx, virtual.ShareMaskWrite, &virtual.OpenExistingOptions{}, baseMask, &out); st != virtual.StatusOK {
@@ -970,6 +1141,11 @@ func (w *c13) opRead() {
 	n := w.liveFile()
 	if n == nil {
 		w.opGetAttributes(w.pickDir())
+		return
+	}
+	if n.fuseID != 0 && w.f != nil {
+		w.logOp("FUSE Open+Read+Release %s", n)
+		w.fuseRead(n)
 		return
 	}
 	w.logOp("read %s", n)
